@@ -54,23 +54,31 @@ func workerSearch(results []interface{}, ctrChanged chan<- struct{}, f func(int)
 		if res == nil {
 			continue
 		}
+		verifYield("worker:search:before-decrement")
 		i := atomic.AddInt64(ctr, -1)
+		verifYield("worker:search:after-decrement")
 		if i >= 0 {
 			results[i] = res
 		}
+		verifYield("worker:search:before-notify")
 		ctrChanged <- struct{}{}
+		verifYield("worker:search:after-notify")
 	}
 }
 
 // worker starts up a new worker, listening to commands, and producing results
 func worker(commands <-chan command) {
 	for c := range commands {
+		verifYield("worker:command-received")
 		if c.search {
 			workerSearch(c.results, c.ctrChanged, c.f, c.ctr)
 		} else {
 			c.results[c.i] = c.f(c.i)
+			verifYield("worker:before-decrement")
 			atomic.AddInt64(c.ctr, -1)
+			verifYield("worker:before-notify")
 			c.ctrChanged <- struct{}{}
+			verifYield("worker:after-notify")
 		}
 	}
 }
@@ -145,14 +153,18 @@ func (p *Pool) Search(count int, f func() interface{}) []interface{} {
 	}
 	cmdI := 0
 	for cmdI < p.workerCount {
+		verifYield("caller:before-select")
 		select {
 		case p.commands <- cmd:
 			cmdI++
 		case <-ctrChanged:
 		}
 	}
+	verifYield("caller:before-load")
 	for atomic.LoadInt64(&ctr) > 0 {
+		verifYield("caller:before-receive")
 		<-ctrChanged
+		verifYield("caller:before-load")
 	}
 
 	return results
@@ -183,14 +195,18 @@ func (p *Pool) Parallelize(count int, f func(int) interface{}) []interface{} {
 		// We won't be able to send all the commands without blocking, so we make
 		// sure to interleave picking off the results of workers to free them up
 		// to receive our commands
+		verifYield("caller:before-select")
 		select {
 		case p.commands <- cmd:
 			cmdI++
 		case <-ctrChanged:
 		}
 	}
+	verifYield("caller:before-load")
 	for atomic.LoadInt64(&ctr) > 0 {
+		verifYield("caller:before-receive")
 		<-ctrChanged
+		verifYield("caller:before-load")
 	}
 
 	return results
